@@ -8,7 +8,8 @@ from harness.props import c01
 PID = 'C12'
 LEVEL = 'proof'
 RULE = ('gin-machine/lock: op lists of length 1-15 over finalize, unlock_config blocks (nested up to 3, body '
-        'succeeding or raising), bind (3 API paths), register, clear, finalize-hook registration (hooks returning '
+        'succeeding or raising), bind (3 API paths), register (fresh or already taken selector, own allow/denylist), '
+        'interactive_mode blocks, clear, finalize-hook registration (hooks returning '
         'keys in different spellings, conflicting or not, or raising), macro/unknown/REQUIRED bindings; observed '
         'after every op: config_is_locked(), outcome class, raw store. non-trivial = history with a raising '
         'unlock body after a successful finalize, or two hooks touching one parameter.')
@@ -88,6 +89,17 @@ class LockEngine(Engine):
         {'regs': [f], 'ops': [['pbind', 'f.a', ['macro', 'gin.REQUIRED']], ['finalize'], ['locked'],
                               ['bind', 'f.a', ['i', 1]], ['hook', ['raise', 'KeyError']], ['finalize'], ['locked'],
                               ['dumpconfig'], ['dumpoper']]},
+        # a registration under a selector that is already taken: in interactive mode it replaces the configurable, on a
+        # locked config it raises like any other (also for a fresh selector), inside an unlock block it is accepted again
+        {'regs': [f], 'ops': [['bind', 'f.a', ['i', 3]], ['finalize'], ['locked'],
+                              ['interactive', [['register', dict(f, deny=['a'])], ['locked']]], ['locked'],
+                              ['interactive', [['register', dict(f, sel='z.h')]]],
+                              ['unlock', [['bind', 'f.a', ['i', 5]]]], ['dumpconfig']]},
+        {'regs': [f, g], 'ops': [['interactive', [['register', dict(g, allow=['b'])]]], ['bind', 'g.b', ['i', 1]], ['finalize'],
+                                 ['unlock', [['interactive', [['register', dict(f, sel='n.g')], ['bind', 'g.a', ['i', 2]]]], ['locked']]],
+                                 ['locked'], ['register', g], ['interactive', [['register', g], ['locked']]], ['locked'],
+                                 ['clear', False], ['interactive', [['register', dict(f, deny=['b'])]]], ['bind', 'f.a', ['i', 1]],
+                                 ['dumpconfig']]},
     ]
 
   def gen_ops(self, rng, regs, depth, n):
@@ -129,11 +141,18 @@ class LockEngine(Engine):
       elif r < 0.63:
         ops.append(['pbind', rng.choice(['mm', 'nn']), ginm.gen_plain(rng, 1)])
       elif r < 0.70:
-        ops.append(['register', {'sel': 'r.' + rng.choice(['u', 'v', 'f']), 'sig': ginm.gen_sig(rng, False, False),
-                                 'allow': [], 'deny': []}])
+        ops.append(self.gen_register(rng, regs, 0.4))
       elif r < 0.78:
         ops.append(['clear', rng.random() < 0.3])
-      elif r < 0.92:
+      elif r < 0.84 and depth < 3:
+        # an interactive_mode block: the one state in which a registration under an ALREADY TAKEN selector is accepted
+        # (it replaces the configurable) -- unless the configuration is locked
+        body = self.gen_ops(rng, regs, depth + 1, rng.randint(0, 2))
+        body.insert(rng.randint(0, len(body)), self.gen_register(rng, regs, 0.8))
+        if rng.random() < 0.15:
+          body.insert(rng.randint(0, len(body)), ['raise'])
+        ops.append(['interactive', body])
+      elif r < 0.94:
         if rng.random() < 0.15:
           ops.append(['hook', ['raise', rng.choice(['KeyError', 'ValueError'])]])
         else:
@@ -153,6 +172,20 @@ class LockEngine(Engine):
       if rng.random() < 0.3:
         ops.append(['locked'])
     return ops
+
+  def gen_register(self, rng, regs, taken):
+    """a registration of a new probe function, under a fresh selector or (probability `taken`) under the selector of a
+    configurable of the setup -- with its own signature and, sometimes, its own allow/denylist"""
+    if rng.random() < taken:
+      sel = rng.choice(regs)['sel']
+    else:
+      sel = 'r.' + rng.choice(['u', 'v', 'f'])
+    sg = ginm.gen_sig(rng, False, False)
+    c = {'sel': sel, 'sig': sg, 'allow': [], 'deny': []}
+    names = ginm.sig_names(sg)
+    if names and rng.random() < 0.25:
+      c['allow' if rng.random() < 0.5 else 'deny'] = rng.sample(names, rng.randint(1, len(names)))
+    return ['register', c]
 
   def gen(self, rng, tier):
     regs = ginm.gen_regs(rng, lists=0.1, allow_req=False, rich=False, sels=['f', 'm.g', 'n.m.g', 'pkg.h'])
@@ -190,7 +223,8 @@ class LockEngine(Engine):
       if k == 'clear' and exc is None and a['locked']:
         fails.append(('clear-left-locked', ''))
       if k == 'register' and exc is None:
-        regs.append(t['op'][1])
+        # (in interactive mode) an accepted registration under a taken selector replaces that configurable
+        regs = [x for x in regs if x['sel'] != t['op'][1]['sel']] + [t['op'][1]]
       if k == 'hook':
         hooks.append(t['op'][1])
       if k == 'finalize' and not b['locked']:
@@ -249,4 +283,220 @@ class LockEngine(Engine):
     return {'obs': obs, 'fails': fails[:3], 'nontrivial': nontrivial, 'tags': tags}
 
 
-ENGINES = [LockEngine()]
+# ---------------------------------------------------------------- registrations under a selector that is already taken
+REREG_SELS = ['m.f', 'm.g', 'n.k']
+REREG_PARAMS = ['a', 'b', 'c']
+REREG_FORMS = ('external', 'configurable', 'register')
+
+
+class ReRegEngine(Engine):
+  """Histories whose registrations use a fixed pool of Python objects (two functions and a class), so that the SAME object
+  can be registered again under the selector it already has (with other allow/denylists, through another registration
+  API), or an object under the selector of another one (accepted in interactive mode only).  gin-lock cannot say this:
+  every registration of the Gin-machine defines a new probe function.  Implementation only; the predicate is written from
+  the property text: (1) the lock is the automaton finalize / clear_config / unlock_config of the text, not Gin's flag;
+  (2) a registration attempted while that automaton is locked raises, whatever the selector and the object; (3) it
+  changes nothing: the same history with those attempts left out gives the same outcome for every other operation, the
+  same config_str, the same function (receiving the same values) behind every selector, and the same set of parameters
+  that can be bound afterwards."""
+  name = 'locked-reregistration'
+  model = False
+  rule = ('lock/re-registration: histories of 2-12 ops over finalize, unlock_config and interactive_mode blocks (nested, '
+          'body raising or not), clear, bind and registrations of two functions and a class from a fixed pool (3 APIs, '
+          'own or foreign selector, allow/denylists); every registration on a locked config raises, and erasing those '
+          'attempts from the history is unobservable (outcomes, config_str, resolved callables, bindable parameters). '
+          'non-trivial = a registration under an already taken selector attempted on a locked config.')
+
+  def budget(self, tier):
+    return 150 if tier == 'quick' else 4000
+
+  @staticmethod
+  def reg(obj, sel, form='external', allow=(), deny=()):
+    return ['reg', obj, sel, form, list(allow), list(deny)]
+
+  def corpus(self):
+    R = self.reg
+    return [
+        # the same function again under its own selector, with a new denylist, on a locked config
+        {'ops': [R(0, 0), ['bind', 0, 'a', 2], ['finalize'], R(0, 0, deny=['a']), ['unlock', [['bind', 0, 'a', 5]]],
+                 R(2, 2)]},
+        # interactive mode: another function under a taken selector, on a locked config; then again after clear_config
+        {'ops': [R(0, 0, 'configurable'), R(1, 1, 'register'), ['bind', 0, 'b', 1], ['finalize'],
+                 ['interactive', [R(1, 0)]], ['unlock', [['interactive', [R(1, 0, allow=['a'])]]]],
+                 ['interactive', [R(0, 0)]], ['clear'], R(1, 1, 'configurable', deny=['c'])]},
+        # a class registered again through the non-mutating APIs; a raising unlock body in between
+        {'ops': [R(2, 2), R(0, 1, 'register', allow=['a', 'b']), ['finalize'], ['unlock', [R(2, 2, 'register', deny=['b']), ['raise']]],
+                 R(2, 2, 'register', allow=['a']), R(0, 1, 'configurable'), ['finalize'], ['bind', 2, 'b', 3]]},
+    ]
+
+  def gen_ops(self, rng, depth, n):
+    ops = []
+    for _ in range(n):
+      r = rng.random()
+      if r < 0.22:
+        ops.append(['finalize'])
+      elif r < 0.60:
+        obj = rng.randrange(3)
+        sel = obj if rng.random() < 0.7 else rng.randrange(3)
+        form = rng.choice(REREG_FORMS)
+        if obj == 2 and form == 'configurable':
+          form = 'external'     # @gin.configurable rewrites the class itself; applied twice it is no re-registration
+        allow, deny = [], []
+        x = rng.random()
+        if x < 0.3:
+          deny = rng.sample(REREG_PARAMS, rng.randint(1, 2))
+        elif x < 0.5:
+          allow = rng.sample(REREG_PARAMS, rng.randint(1, 2))
+        ops.append(self.reg(obj, sel, form, allow, deny))
+      elif r < 0.72 and depth < 2:
+        body = self.gen_ops(rng, depth + 1, rng.randint(1, 3))
+        if rng.random() < 0.3:
+          body.insert(rng.randint(0, len(body)), ['raise'])
+        ops.append(['unlock', body])
+      elif r < 0.84 and depth < 2:
+        ops.append(['interactive', self.gen_ops(rng, depth + 1, rng.randint(1, 2))])
+      elif r < 0.88:
+        ops.append(['clear'])
+      else:
+        ops.append(['bind', rng.randrange(3), rng.choice(REREG_PARAMS), rng.randint(1, 9)])
+    return ops
+
+  def gen(self, rng, tier):
+    setup = [self.reg(i, i, rng.choice(('external', 'register') if i == 2 else REREG_FORMS))
+             for i in rng.sample(range(3), rng.randint(1, 3))]
+    return {'ops': setup + self.gen_ops(rng, 0, rng.randint(2, 9))}
+
+  def shrink(self, case):
+    for ops in ginm.shrink_ops(case['ops']):
+      yield {'ops': ops}
+
+  # -- one run on a fresh gin; `erase`: leave out the registrations attempted while the automaton says locked
+  def run(self, case, erase):
+    gin = C.fresh_gin()
+    ns = {}
+    exec('def fn0(a=0, b=0, c=0):\n  return ("fn0", a, b, c)\n'     # pylint: disable=exec-used
+         'def fn1(a=0, b=0, c=0):\n  return ("fn1", a, b, c)\n'
+         'class Cls2(object):\n  def __init__(self, a=0, b=0, c=0):\n    self.got = ("Cls2", a, b, c)\n', ns)
+    pool = [ns['fn0'], ns['fn1'], ns['Cls2']]
+    st = {'locked': False}          # the automaton of the property text
+    events, attempts, flag_fails = [], [], []
+
+    def probe():
+      out = []
+      for sel in REREG_SELS:
+        try:
+          r = gin.get_configurable(sel)()
+          out.append([sel, list(getattr(r, 'got', r))])
+        except Exception as e:  # pylint: disable=broad-except
+          out.append([sel, 'raised ' + type(e).__name__])
+      return out
+
+    def do_reg(op):
+      _, obj, sel, form, allow, deny = op
+      module, name = REREG_SELS[sel].split('.')
+      kw = dict(module=module, allowlist=allow or None, denylist=deny or None)
+      if form == 'external':
+        gin.external_configurable(pool[obj], name, **kw)
+      elif form == 'configurable':
+        gin.configurable(name, **kw)(pool[obj])
+      else:
+        gin.register(name, **kw)(pool[obj])
+
+    def step(op, path):
+      k = op[0]
+      if k == 'reg' and st['locked']:
+        if erase:
+          return
+        # the program catches what the attempt raises and goes on (so that leaving the attempt out leaves the rest as it is)
+        before = (gin.config_str(), probe())
+        exc = None
+        try:
+          do_reg(op)
+        except Exception as e:  # pylint: disable=broad-except
+          exc = type(e).__name__
+        attempts.append({'at': path, 'op': op, 'exc': exc, 'flag_after': bool(gin.config_is_locked()),
+                         'same': (gin.config_str(), probe()) == before,
+                         'taken': any(c[0] == REREG_SELS[op[2]] and isinstance(c[1], list) for c in before[1])})
+        return
+      exc = None
+      try:
+        if k == 'reg':
+          do_reg(op)
+        elif k == 'finalize':
+          gin.finalize()
+          st['locked'] = True
+        elif k == 'clear':
+          gin.clear_config()
+          st['locked'] = False
+        elif k == 'bind':
+          gin.bind_parameter('%s.%s' % (REREG_SELS[op[1]], op[2]), op[3])
+        elif k == 'raise':
+          raise KeyError('boom')
+        elif k in ('unlock', 'interactive'):
+          saved = st['locked']
+          try:
+            with (gin.unlock_config() if k == 'unlock' else gin.config.interactive_mode()):
+              if k == 'unlock':
+                st['locked'] = False
+              for i, o in enumerate(op[1]):
+                step(o, path + [i])
+          finally:
+            if k == 'unlock':
+              st['locked'] = saved
+      except Exception as e:  # pylint: disable=broad-except
+        exc = type(e).__name__
+        raise
+      finally:
+        events.append([path, k, exc, st['locked']])
+        if bool(gin.config_is_locked()) != st['locked']:
+          flag_fails.append((path, k, st['locked'], bool(gin.config_is_locked())))
+
+    for i, op in enumerate(case['ops']):
+      try:
+        step(op, [i])
+      except Exception:  # pylint: disable=broad-except
+        pass
+    final = {'config_str': gin.config_str(), 'locked': bool(gin.config_is_locked()), 'calls': probe()}
+    # what can be bound afterwards (on an emptied, unlocked configuration), and what the callables then receive
+    gin.clear_config()
+    bindable = []
+    for sel in REREG_SELS:
+      for p in REREG_PARAMS:
+        try:
+          gin.bind_parameter('%s.%s' % (sel, p), 7)
+          bindable.append([sel, p, True])
+        except Exception as e:  # pylint: disable=broad-except
+          bindable.append([sel, p, type(e).__name__])
+    final['bindable'] = bindable
+    final['calls_after'] = probe()
+    return events, attempts, flag_fails, final
+
+  def impl(self, case):
+    events, attempts, flag_fails, final = self.run(case, erase=False)
+    fails = []
+    for a in attempts:
+      if a['exc'] is None or not a['same'] or not a['flag_after']:
+        fails.append(('locked-config-mutated', 'op %d%s: registration %r attempted after finalize (no clear_config, outside any '
+                      'unlock_config block): outcome %s, config_str and the callables behind the selectors %s, locked after=%r'
+                      % (a['at'][0], ' (nested %r)' % a['at'][1:] if a['at'][1:] else '', a['op'],
+                         a['exc'] or 'accepted', 'unchanged' if a['same'] else 'CHANGED', a['flag_after'])))
+    for path, k, want, got in flag_fails[:1]:
+      fails.append(('lock-flag', 'after op %r (%s) the text says locked=%r, config_is_locked()=%r' % (path, k, want, got)))
+    if attempts:
+      events2, _, _, final2 = self.run(case, erase=True)
+      if events != events2:
+        d = [(x, y) for x, y in zip(events, events2) if x != y] or [(events, events2)]
+        fails.append(('locked-registration-observable', 'leaving out the registrations attempted on the locked config changes '
+                      'the outcome of another operation ([path, op, exception, locked]): with them %r, without them %r' % d[0]))
+      for key in final:
+        if final[key] != final2[key]:
+          fails.append(('locked-registration-observable', 'leaving out the registrations attempted on the locked config '
+                        'changes %s: %r, without them %r' % (key, final[key], final2[key])))
+    nontrivial = any(a['taken'] for a in attempts)
+    obs = [[e[1], e[2], e[3]] for e in events] + [[a['op'], a['exc']] for a in attempts] + [final['config_str']]
+    tags = ['%s:%s' % (e[1], 'err' if e[2] else 'ok') for e in events] + \
+           ['locked-reg:%s' % ('err' if a['exc'] else 'ok') for a in attempts]
+    return {'obs': obs, 'fails': fails[:3], 'nontrivial': nontrivial, 'tags': tags}
+
+
+ENGINES = [LockEngine(), ReRegEngine()]
